@@ -2621,6 +2621,18 @@ class TensorDict(TensorDictBase):
             if isinstance(idx, tuple) and len(idx) == 1:
                 idx = idx[0]
             dest = tensor_in
+            if isinstance(idx, tuple) and not idx:
+                # td[()] = value (and td[...] = value on a 0-d tensordict): the index selects the whole entry,
+                # which is replaced (NonTensorData.__setitem__ does not carry the non-tensor payload over)
+                if dest.tolist() != value.tolist():
+                    self._set_str(
+                        key,
+                        value,
+                        validated=True,
+                        inplace=False,
+                        ignore_lock=True,
+                    )
+                return
             if (
                 isinstance(idx, torch.Tensor)
                 and idx.shape == ()
